@@ -185,6 +185,27 @@ class Checker:
     def rej(self, rule, detail):
         raise Reject(rule, detail, n=self.cur_n, flags={"after_failure": self.after_failure})
 
+    def soft(self, rule, detail):
+        """A deviation after which the reference stays aligned: recorded, checking continues."""
+        if not hasattr(self, "softs"):
+            self.softs = []
+        if len(self.softs) < 50:
+            self.softs.append((rule, detail, self.cur_n))
+
+    def _leave_candidate(self, ctx, why):
+        """The implementation moved past the current candidate without executing it."""
+        t = ctx.cands[ctx.ci]
+        raising = self.raising_validators(t)
+        if raising:
+            if any(v.split("@")[0] in raising for v in ctx.seen_validators):
+                self.rej("C01.validator-aborts", f"{why} although validator {raising} of candidate t{t['i']} raised")
+            self.rej("C01.validator-aborts", f"{why} although validator {raising} of candidate t{t['i']} raises (it was never evaluated)")
+        if self.enabled(t):
+            self.rej("C01.selection", f"{why} although candidate t{t['i']} ({t['src']}->{t['dst']}) is enabled")
+        if self.validator_ids(t) - ctx.seen_validators:
+            self.soft("C02.exactly-once", f"validators {sorted(self.validator_ids(t) - ctx.seen_validators)} of rejected candidate t{t['i']} were skipped")
+        self._next_candidate(ctx)
+
     @property
     def ctx(self):
         return self.stack[-1] if self.stack else None
@@ -281,7 +302,7 @@ class Checker:
                 self.stats["validator_aborts"] += 1
                 return False
             if need - ctx.seen_validators:
-                self.rej("C02.exactly-once", f"validators {sorted(need - ctx.seen_validators)} of candidate t{t['i']} not run")
+                self.soft("C02.exactly-once", f"validators {sorted(need - ctx.seen_validators)} of candidate t{t['i']} not run")
             ctx.phase = "cond"
             return True
         if ph == "cond":
@@ -344,7 +365,7 @@ class Checker:
                     if any(v.split("@")[0] in raising for v in ctx.seen_validators):
                         self._advance(ctx)
                     return
-                if need - ctx.seen_validators:
+                if need - ctx.seen_validators and not force_cond:
                     return
                 self._advance(ctx)
             elif ctx.phase == "cond":
@@ -367,6 +388,8 @@ class Checker:
         if ctx.failing:
             self.drain_failing = ctx
             return
+        if not ctx.initial:
+            self.drain_events = getattr(self, "drain_events", 0) + 1
         if not ctx.initial and self.first_result == ("unset",):
             self.first_result = ("res", ctx)
         if self.queue:
@@ -396,11 +419,20 @@ class Checker:
                 if ctx.open:
                     self.rej("C03.no-interleave", f"event {ctx.event}/{ctx.tok} still has open callbacks {sorted(ctx.open)} in phase {ctx.phase}")
                 self._missing(ctx, what)
+                continue
             return
 
     def _missing(self, ctx, what):
-        rule = "C02.exactly-once"
-        self.rej(rule, f"callbacks {what} of phase '{ctx.phase}' of event {ctx.event}/{ctx.tok} (t{ctx.t['i'] if ctx.t else '?'}) did not run before the next step")
+        """Declared callbacks of the current phase never ran. The reference stays aligned when they
+        are simply absent (soft, C02); it is an ordering violation when they run later."""
+        msg = f"callbacks {what} of phase '{ctx.phase}' of event {ctx.event}/{ctx.tok} (t{ctx.t['i'] if ctx.t else '?'}) did not run before the next step"
+        if self._begins_later(ctx):
+            self.rej("C02.order", msg + " (they run later)")
+        self.soft("C02.exactly-once", msg)
+        if ctx.phase in ("before", "on") and not ctx.initial:
+            for cid in sorted(ctx.pending):
+                ctx.rets[ctx.phase][cid] = self.cbs[cid]["script"].get("ret", "none")
+        ctx.pending = set()
 
     # ------------------------------------------------------------------ event consumption
     def feed(self, ev):
@@ -462,6 +494,7 @@ class Checker:
         self.draining = True
         self.drain_tok = owner_tok
         self.first_result = ("unset",)
+        self.drain_events = 0
         self.drain_failing = None
         self.drain_done = False
         if first_item is not None:
@@ -541,7 +574,7 @@ class Checker:
             self.rej(rule, f"{what} send returned {val}; expected before={b} on={o}")
 
     def _looks_like_other_result(self, val):
-        return False
+        return getattr(self, "drain_events", 0) > 1
 
     # ---- sends
     def on_send_call(self, ev):
@@ -598,7 +631,11 @@ class Checker:
         if ctx.phase != "done" and not ctx.failing:
             if ctx.open:
                 self.rej("C03.no-interleave", f"non-rtc event {ctx.event} returned with open callbacks")
-            self._missing(ctx, sorted(ctx.pending))
+            for _ in range(8):
+                if ctx.phase == "done" or ctx.failing:
+                    break
+                self._missing(ctx, sorted(ctx.pending))
+                self._settle(ctx, force_cond=True)
         self.stack.pop()
         if ctx.failing:
             exp_type = ctx.failing[0]
@@ -666,10 +703,10 @@ class Checker:
         return self.ctx
 
     def _begins_later(self, ctx):
-        later = self.lookahead_begins
-        return any((ctx.tok, c) in later for c in ctx.pending)
+        cur = self.cur_n or 0
+        return any(any(n > cur for n in self.begin_ns.get((ctx.tok, c), ())) for c in ctx.pending)
 
-    lookahead_begins = frozenset()
+    begin_ns = {}
 
     def on_cb_begin(self, ev):
         cid, tok = ev["cb"], ev.get("tok")
@@ -692,30 +729,38 @@ class Checker:
                     self.rej("C01.selection", f"callback {cid} ran although no candidate of {ctx.event} in {ctx.src_state} is enabled")
                 t = ctx.cands[ctx.ci]
                 # an action callback: the candidate must be enabled per the reference
-                if ctx.phase == "validators":
-                    need = self.validator_ids(t)
-                    if self.raising_validators(t):
-                        self.rej("C01.validator-aborts", f"callback {cid} ran although validator {self.raising_validators(t)} of t{t['i']} raises")
-                    if need - ctx.seen_validators:
-                        self.rej("C02.order", f"callback {cid} ran before validators {sorted(need - ctx.seen_validators)} of t{t['i']}")
-                    ctx.phase = "cond"
+                if self.raising_validators(t):
+                    self.rej("C01.validator-aborts", f"callback {cid} ran although validator {self.raising_validators(t)} of t{t['i']} raises")
                 if not self.enabled(t):
                     # rejected candidate must run no action: cid may only belong to a later candidate
-                    self._advance(ctx)
+                    self._leave_candidate(ctx, f"callback {cid} ran")
                     continue
+                if self.validator_ids(t) - ctx.seen_validators:
+                    self.soft("C02.exactly-once", f"callback {cid} ran but validators {sorted(self.validator_ids(t) - ctx.seen_validators)} of t{t['i']} never did")
+                    ctx.seen_validators |= self.validator_ids(t)
+                ctx.phase = "cond"
                 self._advance(ctx)
                 continue
             if ctx.phase == "done":
                 self.rej("C02.extra-callback", f"callback {cid} after event {ctx.tok} completed")
             if cid in ctx.pending:
                 break
-            if cid in ctx.open or any(cid in s for p, s in getattr(ctx, "phase_sets", {}).items() if p != ctx.phase and cid not in ctx.pending and p in self._phases_before(ctx.phase)):
-                self.rej("C02.exactly-once", f"callback {cid} ran twice in event {ctx.tok} (phase {ctx.phase})")
+            if cid in ctx.open:
+                self.rej("C02.exactly-once", f"callback {cid} began again while still running in phase {ctx.phase} of event {ctx.tok}")
             if not self._phase_complete(ctx):
+                if cid in getattr(ctx, "phase_sets", {}).get(ctx.phase, ()):
+                    self.rej("C02.exactly-once", f"callback {cid} ran twice in phase {ctx.phase} of event {ctx.tok}")
                 # is cid part of a later phase? then order violation; else extra/wrong
                 if self._in_later_phase(ctx, cid):
+                    if not ctx.open and not self._begins_later(ctx):
+                        self._missing(ctx, sorted(ctx.pending))
+                        continue
                     self.rej("C02.order", f"callback {cid} (later phase) began while phase '{ctx.phase}' still has pending {sorted(ctx.pending)} open {sorted(ctx.open)}")
                 self.rej("C02.extra-callback", f"callback {cid} is not expected in event {ctx.event}/{ctx.tok} t{ctx.t['i']} phase {ctx.phase}")
+            if not self._in_later_phase(ctx, cid):
+                if any(cid in s_ for s_ in getattr(ctx, "phase_sets", {}).values()):
+                    self.rej("C02.exactly-once", f"callback {cid} ran once more than expected in event {ctx.event}/{ctx.tok} (phase {ctx.phase})")
+                self.rej("C02.extra-callback", f"callback {cid} is not expected anywhere in event {ctx.event}/{ctx.tok} t{ctx.t['i']}")
             if not self._advance(ctx):
                 self.rej("C02.extra-callback", f"callback {cid} is not expected anywhere in event {ctx.event}/{ctx.tok} t{ctx.t['i']}")
         ctx.pending.discard(cid)
@@ -840,35 +885,30 @@ class Checker:
         if ctx.failing:
             return
         for _ in range(10000):
-            if ctx.phase == "validators":
-                t = ctx.cands[ctx.ci]
-                if self.raising_validators(t):
-                    if any(v.split("@")[0] in self.raising_validators(t) for v in ctx.seen_validators):
-                        self.rej("C01.validator-aborts", f"guard {gid} evaluated after validator of t{t['i']} raised")
-                    self.rej("C02.order", f"guard {gid} evaluated before raising validator of t{t['i']}")
-                if self.validator_ids(t) - ctx.seen_validators:
-                    self.rej("C02.order", f"guard {gid} evaluated before validators {sorted(self.validator_ids(t) - ctx.seen_validators)} of t{t['i']}")
-                ctx.phase = "cond"
-            if ctx.phase == "cond":
+            if ctx.phase in ("validators", "cond"):
                 t = ctx.cands[ctx.ci]
                 if gid in self.guard_ids(t) and (ev.get("t_dst") in (None, t["dst"])) and gid not in ctx.seen_guards:
+                    raising = self.raising_validators(t)
+                    if raising and any(v.split("@")[0] in raising for v in ctx.seen_validators):
+                        self.rej("C01.validator-aborts", f"guard {gid} evaluated after validator of t{t['i']} raised")
+                    if ctx.phase == "validators" and self.validator_ids(t) - ctx.seen_validators:
+                        self.soft("C02.order", f"guard {gid} evaluated before validators {sorted(self.validator_ids(t) - ctx.seen_validators)} of t{t['i']}")
                     ctx.seen_guards.add(gid)
                     if ev.get("event") not in (None, ctx.event):
                         self.rej("C02.event-source-target", f"guard {gid}: injected event {ev.get('event')} != {ctx.event}")
                     return
-                # belongs to a later candidate? only if this one is rejected by the reference
-                if self.enabled(t):
-                    if tok is None and self.rtc:
-                        # a token-less guard may belong to the next queued event: the current
-                        # one must then be completable without further observations
-                        save = self.cur_n
-                        self._advance(ctx)
-                        ctx2 = self._roll_to_selection()
-                        if ctx2 is not None and ctx2 is not ctx:
-                            ctx = ctx2
-                            continue
-                    self.rej("C01.selection", f"guard {gid} (not of candidate t{t['i']} or repeated) evaluated although t{t['i']} is enabled: a later candidate is being tried")
-                self._next_candidate(ctx)
+                # not a guard of this candidate: a later candidate (or, token-less, a later event)
+                if self.enabled(t) and not self.raising_validators(t) and tok is None and self.rtc:
+                    # a token-less guard may belong to the next queued event: the current one
+                    # must then be completable without further observations
+                    ctx.phase = "cond"
+                    self._advance(ctx)
+                    ctx2 = self._roll_to_selection()
+                    if ctx2 is not None and ctx2 is not ctx:
+                        ctx = ctx2
+                        continue
+                    self.rej("C01.selection", f"guard {gid} (not of candidate t{t['i']}, or repeated) evaluated although t{t['i']} is enabled")
+                self._leave_candidate(ctx, f"guard {gid} of a later candidate was evaluated")
                 continue
             if ctx.phase == "none-left":
                 if tok is None and self.rtc and self.allow:
@@ -892,23 +932,15 @@ class Checker:
             self.stats["masked_siblings"] += 1
             return
         gid = ev["g"]
-        for _ in range(len(ctx.cands) + 2):
-            if ctx.phase == "validators":
+        for _ in range(10000):
+            if ctx.phase in ("validators", "cond"):
                 t = ctx.cands[ctx.ci]
                 if gid in self.validator_ids(t) and gid not in ctx.seen_validators and ev.get("t_dst") in (None, t["dst"]):
+                    if ctx.seen_guards:
+                        self.soft("C02.order", f"validator {gid} of t{t['i']} ran after guards {sorted(ctx.seen_guards)}")
                     ctx.seen_validators.add(gid)
                     return
-                # a validator of a later candidate: current must be fully validated and rejected
-                if self.raising_validators(t):
-                    self.rej("C01.validator-aborts", f"validator {gid} of a later candidate ran although t{t['i']}'s validator raises")
-                if self.validator_ids(t) - ctx.seen_validators:
-                    self.rej("C02.exactly-once", f"validators {sorted(self.validator_ids(t) - ctx.seen_validators)} of t{t['i']} skipped")
-                ctx.phase = "cond"
-            if ctx.phase == "cond":
-                t = ctx.cands[ctx.ci]
-                if self.enabled(t):
-                    self.rej("C01.selection", f"validator {gid} of a later candidate ran although t{t['i']} is enabled")
-                self._next_candidate(ctx)
+                self._leave_candidate(ctx, f"validator {gid} of a later candidate ran")
                 continue
             if ctx.phase == "none-left":
                 self.rej("C01.selection", f"validator {gid} ran but no candidate is left")
@@ -916,7 +948,7 @@ class Checker:
 
     def on_validator_raise(self, ev):
         ctx = self.ctx
-        if ctx is not None and not ctx.failing and ctx.phase == "validators":
+        if ctx is not None and not ctx.failing and ctx.phase in ("validators", "cond"):
             t = ctx.cands[ctx.ci]
             ctx.failing = ("ValidatorError", "validators", ev.get("excid"))
             ctx.outcome = "validator"
@@ -936,7 +968,10 @@ def check_log(spec, log, value_of=None, strict_args=True, prepare=None):
     ck = Checker(spec, value_of=value_of, strict_args=strict_args)
     if prepare:
         prepare(ck)
-    ck.lookahead_begins = frozenset((e.get("tok"), e["cb"]) for e in log if e["k"] == "cb_begin")
+    ck.begin_ns = {}
+    for e in log:
+        if e["k"] == "cb_begin":
+            ck.begin_ns.setdefault((e.get("tok"), e["cb"]), []).append(e["n"])
     try:
         for ev in log:
             ck.feed(ev)
